@@ -60,7 +60,7 @@ func vxH10Cut(n int, a int, mode int, b int, dotu bool) {
 	failed := false
 	fail := func(p *vxPeer, r *vxPReq) {
 		failed = true
-		p.stopped = true
+		p.stop()
 		switch mode {
 		case vxFailCut:
 			if r != nil {
@@ -97,7 +97,7 @@ func vxH10Cut(n int, a int, mode int, b int, dotu bool) {
 			p.send(r, p.matchingReply(r), 0)
 			if mode == vxFailWrite && r.idx+2 == a {
 				// the next request is refused by the transport
-				p.nc.failWriteAt = len(p.nc.wire)
+				p.nc.failWriteAt = len(p.wire)
 			}
 			return
 		}
@@ -116,7 +116,7 @@ func vxH10Cut(n int, a int, mode int, b int, dotu bool) {
 	if !vxAwaitCallers(callers[:n]) {
 		return
 	}
-	nerr := 0
+	peer.sync()
 	for i := 0; i < n; i++ {
 		c := callers[i]
 		rq := peer.findReq(c.fid.Fid, 0)
@@ -134,9 +134,6 @@ func vxH10Cut(n int, a int, mode int, b int, dotu bool) {
 			}
 		default:
 			vxAssert(c.gotMatching(dotu), "reply-completely-received-before-the-failure-is-delivered")
-		}
-		if c.err != nil {
-			nerr++
 		}
 	}
 	if mode == vxFailWrite && a > n {
